@@ -316,6 +316,8 @@ func round6(w *World, r *Report, prop string) {
 	case "C11":
 		r.Rule("R11.13", "a verdict does not depend on what was compiled before: the map-, slice- and struct-valued fields of compile.Compiler and their writers are the reviewed ones (same analysis as R12.10) — a memo keyed by a name that is not unique (two groupings called g) makes the outcome depend on the order in which modules and scopes are visited", 8)
 		r.guard("R11.13", func() { c12CompilerFields(w, r, "R11.13") })
+		r.Rule("R11.14", "the value space of an identityref does not depend on the order in which identities were linked: identityValues lists every derived identity it meets (NewIdentity on every iteration) — the links are made in map order (reviewed, R11.1), so a `skip what is already listed` makes the result order-dependent", 1)
+		r.guard("R11.14", func() { r6EveryIdentityListed(w, r, "R11.14") })
 	case "C16":
 		r.Rule("R16.15", "the value space of a union is the union of the member types the compiler hands over: NewUnion stores its member list as given (nil replaced by an empty list) — no member is dropped on the way (inline members of one built-in type all have the same name)", 1)
 		r.guard("R16.15", func() {
@@ -330,6 +332,19 @@ func round6(w *World, r *Report, prop string) {
 		r.guard("R17.10", func() { r6UnionTriesEveryMember(w, r, "R17.10") })
 		r.Rule("R17.11", "a rejection names the offending element in the encoding its readers decode: every store into the Path of a management error in package schema takes the text from pathutil.Pathstr (or copies another error's Path)", 10)
 		r.guard("R17.11", func() { r6PathWrittenByPathstr(w, r, "R17.11") })
+	case "C18":
+		r.Rule("R18.14", "a case is active through any member: hasCfg answers `configured` exactly when the name of some member of the choice or case is among the configured names — no test of what kind of node the member is", 1)
+		r.guard("R18.14", func() { r6HasCfg(w, r, "R18.14") })
+		r.Rule("R18.15", "a present leaf of a unique set is found: resolveDescendant's scan over the children is left early only at the child whose name equals the step (no exit on a string ordering — the children come in natural order)", 1)
+		r.guard("R18.15", func() { r6ResolveDescendantScan(w, r, "R18.15") })
+	case "C19":
+		r.Rule("R19.15", "decoding rejects what the schema rejects, entry by entry: in convertToDataNode every iteration of the loop over the values reaches sn.Validate — no value is skipped", 1)
+		r.guard("R19.15", func() { r6EveryValueValidated(w, r, "R19.15") })
+		r.Rule("R19.16", "an identityref survives the XML round trip: namespacePrefixes binds the prefix of an identity to that identity's own Namespace", 1)
+		r.guard("R19.16", func() { r6XmlnsOfIdentity(w, r, "R19.16") })
+	case "C20":
+		r.Rule("R20.9", "no filter means no filtering: Compiler.filter is stored in NewCompiler only, and it is the caller's filter as it stands (nil stays nil)", 1)
+		r.guard("R20.9", func() { r6FilterStoredAsGiven(w, r, "R20.9") })
 	case "C13":
 		r.Rule("R13.13", "a derived type only narrows: getTypes refuses `type` substatements on a type derived from a union typedef (an error exit is taken when a base union is given and member types are listed) — otherwise the listed members replace the inherited ones", 1)
 		r.guard("R13.13", func() { r6DerivedUnionMembers(w, r, "R13.13") })
@@ -1187,4 +1202,231 @@ func r6PathWrittenByPathstr(w *World, r *Report, rule string) {
 	if n == 0 {
 		panic(undecided{"no store to the Path of a management error in package schema"})
 	}
+}
+
+// r6HasCfg (R18.14): a choice or case has configuration as soon as one of its
+// members is among the configured names, whatever kind of node that member is.
+func r6HasCfg(w *World, r *Report, rule string) {
+	f := w.SSAFunc(w.Func("schema", "hasCfg"))
+	if f == nil {
+		panic(undecided{"schema.hasCfg"})
+	}
+	sym := NewSym(w)
+	sym.Expand = false
+	classify := func(a *pcAtom) string {
+		if ex, ok := a.v.(*ssa.Extract); ok && ex.Index == 1 {
+			if lk, ok := ex.Tuple.(*ssa.Lookup); ok && lk.CommaOk {
+				return "seen"
+			}
+		}
+		if pcIsIter(a) {
+			return "iter"
+		}
+		return ""
+	}
+	why := ""
+	loops := ssaLoops(f)
+	switch len(loops) {
+	case 1:
+		l := loops[0]
+		body := l.body()
+		trueCond := pcZ
+		for _, b := range f.Blocks {
+			ret, ok := b.Instrs[len(b.Instrs)-1].(*ssa.Return)
+			if !ok || len(ret.Results) != 1 {
+				continue
+			}
+			k, isK := ret.Results[0].(*ssa.Const)
+			if !isK || k.Value == nil {
+				why = "a result that is not a constant"
+				continue
+			}
+			if k.Value.ExactString() == "true" {
+				if !(body[b] || l.Header.Dominates(b)) {
+					why = "true is returned outside the scan of the members"
+					continue
+				}
+				trueCond = pcOrF(trueCond, sym.PathCond(l.Header, b, nil))
+			}
+		}
+		if why == "" {
+			if msg := pcCompare(trueCond, classify, func(env map[string]bool) bool { return env["iter"] && env["seen"] }); msg != "" {
+				why = "`configured` is not answered exactly when a member's name is among the configured names: " + msg
+			}
+		}
+	case 0:
+		// the scan handed to slices.ContainsFunc
+		found := false
+		for _, b := range f.Blocks {
+			for _, in := range b.Instrs {
+				if call, ok := in.(*ssa.Call); ok {
+					if _, test := containsFuncCall(call); test != nil {
+						found = true
+						if msg := pcCompare(sym.ResultCond(test, nil), classify, func(env map[string]bool) bool { return env["seen"] }); msg != "" {
+							why = "the test handed to the scan is not `this member's name is configured`: " + msg
+						}
+					}
+				}
+			}
+		}
+		if !found {
+			why = "no scan of the members found"
+		}
+	default:
+		why = "more than one loop"
+	}
+	r.Check(why == "", rule, "hasCfg: configured iff some member is configured", f.Pos(), "∃ member: name ∈ configured names", why+": a case that is active only through a non-presence container (or another kind of member) is not recognised, its sibling defaults are omitted and the default case's defaults are added next to explicit data of another case")
+}
+
+// r6ResolveDescendantScan (R18.15): the scan over the children of a list entry
+// in resolveDescendant is left early only at the child it is looking for.
+func r6ResolveDescendantScan(w *World, r *Report, rule string) {
+	f := w.SSAFunc(w.Func("schema", "resolveDescendant"))
+	if f == nil {
+		panic(undecided{"schema.resolveDescendant"})
+	}
+	sym := NewSym(w)
+	sym.Expand = false
+	loops := ssaLoops(f)
+	if len(loops) == 0 {
+		r.OK(rule, "resolveDescendant scan", f.Pos(), "no hand-written loop (library search)")
+		return
+	}
+	why := ""
+	for _, l := range loops {
+		mid := loopMidExits(sym, l)
+		if mid == pcZ {
+			continue
+		}
+		has := false
+		msg := pcImplies(mid, func(a *pcAtom) string {
+			if a.op == token.EQL && a.x != nil && a.y != nil {
+				if bt, ok := a.x.Type().Underlying().(*types.Basic); ok && bt.Info()&types.IsString != 0 {
+					has = true
+					return "match"
+				}
+			}
+			return ""
+		}, func(env map[string]bool) bool { return env["match"] })
+		if !has || msg != "" {
+			why = "the scan over the children is left although the child looked at is not the one named (" + msg + ")"
+		}
+	}
+	r.Check(why == "", rule, "resolveDescendant looks at every child until it finds the one named", f.Pos(), "left early only at a child whose name equals the step", why+": with an early exit on a string ordering (the children are in natural order, `addr2` before `addr10`) a present leaf of a unique set is taken for absent and duplicate entries go unreported")
+}
+
+// r6EveryValueValidated (R19.15): every value of a decoded leaf or leaf-list is
+// put to the schema's Validate.
+func r6EveryValueValidated(w *World, r *Report, rule string) {
+	f := w.SSAFunc(w.Func("data/encoding", "convertToDataNode"))
+	if f == nil {
+		panic(undecided{"encoding.convertToDataNode"})
+	}
+	found, every, why := everyIterationCallsDeep(f, func(c ssa.CallInstruction) bool {
+		cc := c.Common()
+		return cc.IsInvoke() && nm(cc.Method) == "Validate" && len(cc.Args) == 3
+	}, 0)
+	if !found {
+		panic(undecided{"convertToDataNode: loop that validates the values"})
+	}
+	r.Check(every, rule, "convertToDataNode validates every value", f.Pos(), "sn.Validate(…) on every iteration of the loop over the values", "some values skip validation ("+why+"): an entry of a leaf-list the type rejects (\"\" for a uint16, null) is dropped or accepted instead of reported, and a legitimate \"\" entry of a string leaf-list is lost")
+}
+
+// r6XmlnsOfIdentity (R19.16): the namespace bound to an identity's prefix in the
+// XML encoding is the identity's own.
+func r6XmlnsOfIdentity(w *World, r *Report, rule string) {
+	f := w.SSAFunc(w.Func("data/encoding", "namespacePrefixes"))
+	if f == nil {
+		panic(undecided{"encoding.namespacePrefixes"})
+	}
+	n := 0
+	why := ""
+	for _, b := range f.Blocks {
+		if _, inLoop := loopOf(f, b); !inLoop {
+			continue
+		}
+		for _, in := range b.Instrs {
+			st, ok := in.(*ssa.Store)
+			if !ok {
+				continue
+			}
+			fa, ok := st.Addr.(*ssa.FieldAddr)
+			if !ok {
+				continue
+			}
+			fv := fieldAddrVar(fa)
+			if fv == nil || fv.Name() != "Value" || fv.Pkg() == nil || fv.Pkg().Path() != "encoding/xml" {
+				continue
+			}
+			n++
+			if loadedFieldName(st.Val) != "Namespace" {
+				why = "the value of the xmlns attribute is `" + st.Val.String() + "`, not the Namespace of the identity"
+			}
+		}
+	}
+	if n == 0 {
+		panic(undecided{"namespacePrefixes: xmlns attribute for an identity"})
+	}
+	r.Check(why == "", rule, "namespacePrefixes binds an identity's prefix to the identity's namespace", f.Pos(), "xmlns:<module> = identity.Namespace", why+": the prefix of a foreign identity resolves to the leaf's own module when the XML is read back, and the value silently becomes a same-named identity of that module")
+}
+
+// r6FilterStoredAsGiven (R20.9)
+func r6FilterStoredAsGiven(w *World, r *Report, rule string) {
+	f := w.SSAFunc(w.Func("compile", "NewCompiler"))
+	filter := w.Field("compile", "Compiler", "filter")
+	if f == nil {
+		panic(undecided{"compile.NewCompiler"})
+	}
+	n := 0
+	why := ""
+	for _, g := range allFuncs(w.SSAPkg("compile")) {
+		if isTestFile(w, g.Pos()) {
+			continue
+		}
+		for _, b := range g.Blocks {
+			for _, in := range b.Instrs {
+				st, ok := in.(*ssa.Store)
+				if !ok {
+					continue
+				}
+				fa, ok := st.Addr.(*ssa.FieldAddr)
+				if !ok || !isFieldAddrOf(fa, filter) {
+					continue
+				}
+				n++
+				v := st.Val
+				for {
+					if ct, ok := v.(*ssa.ChangeType); ok {
+						v = ct.X
+						continue
+					}
+					break
+				}
+				if prm, isP := v.(*ssa.Parameter); !isP || prm.Parent() != f || g != f {
+					why = "Compiler.filter is set to `" + st.Val.String() + "` in " + funcKey(g)
+				}
+			}
+		}
+	}
+	if n == 0 {
+		panic(undecided{"no store to Compiler.filter"})
+	}
+	r.Check(why == "", rule, "the compiler filters with the filter it was given", f.Pos(), "c.filter = filter, in NewCompiler only", why+", not to the caller's filter as it stands: a nil filter (`do not filter`) is replaced, so the unfiltered compile already lacks nodes and a filtered compile is no longer its pruning")
+}
+
+// r6EveryIdentityListed (R11.14): identityValues lists every derived identity it
+// meets; what is already in the list plays no part.
+func r6EveryIdentityListed(w *World, r *Report, rule string) {
+	f := w.SSAFunc(w.Method("compile", "Compiler", "identityValues"))
+	if f == nil {
+		panic(undecided{"Compiler.identityValues"})
+	}
+	found, every, why := everyIterationCalls(f, func(c ssa.CallInstruction) bool {
+		g := c.Common().StaticCallee()
+		return g != nil && nm(g) == "NewIdentity"
+	})
+	if !found {
+		panic(undecided{"identityValues: loop that lists the derived identities"})
+	}
+	r.Check(every, rule, "identityValues lists every derived identity", f.Pos(), "schema.NewIdentity(…) on every iteration", "a derived identity is left out depending on what is already listed ("+why+"): the derived identities are linked to their bases in map order, so which of two same-named identities of different modules survives differs from run to run")
 }
